@@ -34,7 +34,9 @@ RULE = (
     "random documents in families mixed/labels/dests/outlines/absent (+ tagged alpha_gt26; + chain and deep under a "
     "step budget) and deterministic enumerations (every roman value 1..3999 in both cases, every letter value 1..26 at "
     "every offset, every defined PDFDocEncoding code, UTF-16 boundary code points). Name/number trees: root without "
-    "Limits, every other node with exact Limits, leaves sorted, Kids indirect; sibling order of Kids shuffled in ~15% "
+    "Limits, every other node with exact Limits, leaves sorted; kid nodes indirect (64% of the trees), all written "
+    "inline as dictionaries inside /Kids (18%) or mixed (18%) - Table 36 asks for references, the property says 'direct "
+    "or indirect nodes'; sibling order of Kids shuffled in ~15% "
     "of the trees (7.9.6 orders only the leaf arrays). Labels: the tree always has page index 0, St>=1, roman values "
     "<=3999, letter values <=26 outside the tagged family. Text: PDFDocEncoding strings use only codes Annex D "
     "defines (HT LF CR, 0x18-0x1F, 0x20-0x7E, 0x80-0x9E, 0xA0-0xFF without 0xAD) and never start with FE FF or EF BB "
@@ -324,11 +326,12 @@ def minimums(tier: str) -> Dict[str, int]:
             "outline_items_without_dest_or_A": 9000, "no_labels_confirmed": 3000, "no_outlines_confirmed": 3000,
             "docs:alpha_gt26": 300, "docs:absent": 800, "max_siblings_bucket_>=1000": 4,
             "absent:tree_absent:gap_between_leaves": 15000, "absent:tree_absent:below_all": 5000,
-            "absent:tree_absent:above_all": 5000, "feat:kids_unordered": 2000}
+            "absent:tree_absent:above_all": 5000, "feat:kids_unordered": 1500,
+            "trees_with_direct_kids:nt": 800, "trees_with_direct_kids:pl": 800, "feat:direct_kid_nodes": 8000}
     if tier != "quick":
         base = {k: v * 22 for k, v in base.items()}
     base.update({"seen:absent_classes": 8, "seen:label_styles": 6, "seen:pdfdoc_codes": 232, "seen:roman_values": 3999,
-                 "seen:target_kinds": 8, "seen:tree_modes": 5, "docs:enum_roman": 80, "docs:enum_alpha": 104,
+                 "seen:target_kinds": 8, "seen:tree_modes": 5, "seen:direct_kid_trees": 20, "docs:enum_roman": 80, "docs:enum_alpha": 104,
                  "text:enum_pdfdoc": 400, "text:enum_utf16": 441})
     return base
 
@@ -393,6 +396,9 @@ def _record(case: Dict[str, Any], rec) -> None:
                 rec.see("tree_modes", k[8:])
             if k.startswith("style_"):
                 rec.see("label_styles", k[6:])
+            if "_kids_direct_" in k:
+                rec.see("direct_kid_trees", k)          # e.g. pl_kids_direct_mixed_depth4
+                rec.count("trees_with_direct_kids:" + k[:2])
         st = case.get("stats", {})
         for k in ("nt_depth", "pl_depth", "nt_maxfan", "pl_maxfan", "ol_maxlevel"):
             if k in st:
